@@ -177,6 +177,8 @@ BREAKING = [
     ('C14', 'sc3/seq/patterns/eventpatterns.py', "                    event['node_id'] = node_id\n                    event['mono_params'] = mono_params\n                    inevent = yield event\n        except stm.StopStream:\n            cleanup.run()", "                    event['node_id'] = node_id\n                    event['mono_params'] = mono_params\n                    inevent = yield event\n        except stm.StopStream:\n            pass", 'Pmono never releases its synth'),
     ('C06', 'sc3/base/_osclib.py', "                    dgram += write_int(size)\n                    dgram += content.dgram", "                    dgram += content.dgram\n                    dgram += write_int(size)", 'bundle element size written after the element'),
     ('C06', 'sc3/base/_osclib.py', "                elif arg_type == self.ARG_TYPE_FLOAT:\n                    dgram += write_float(value)", "                elif arg_type == self.ARG_TYPE_FLOAT:\n                    dgram += write_double(value)", 'float arguments encoded as doubles under tag f'),
+    ('C18', 'sc3/base/_osclib.py', "                    if len(param_stack) < 2:", "                    if len(param_stack) < 1:", 'closing bracket without an open array accepted'),
+    ('C06', 'sc3/base/_osclib.py', "                elif param == \"f\":  # Float.\n                    val, index = get_float(self._dgram, index)", "                elif param == \"f\":  # Float.\n                    val, index = get_double(self._dgram, index)", 'float arguments decoded as doubles'),
 ]
 
 
